@@ -20,6 +20,7 @@ import (
 	"sort"
 	"strings"
 	"sync"
+	"syscall"
 	"time"
 
 	_ "github.com/mattn/go-sqlite3"
@@ -477,14 +478,32 @@ type session struct {
 	wkeys  []witKey
 	wrv    []*recVerifier // recording wrappers around the independent witness verifiers
 	unknownIDs []string
+	// fault injection (scenario fault): interface-level fault letters, driver-level fault names
+	faults    string
+	ctl       *lspCtl
+	useDrv    bool
+	drvFaults []string
+	signFail  *bool
+	dead      bool // a storage operation hung: nothing more can be done with this witness
 }
 
 var sessCounter int
 
+// hangCount counts operations that did not return; scenarios stop early once a few were seen.
+var hangCount int
+
 func newSession(t *traceWriter, storeKind string, logs []*logDef, wkeys []witKey) *session {
+	return newSessionWith(t, storeKind, logs, wkeys, nil, nil)
+}
+
+func newSessionWith(t *traceWriter, storeKind string, logs []*logDef, wkeys []witKey, lsp persistence.LogStatePersistence, signFail *bool) *session {
 	sessCounter++
 	s := &session{id: fmt.Sprintf("S%d", sessCounter), t: t, logs: logs, wkeys: wkeys}
-	s.store = newStore(storeKind)
+	if lsp != nil {
+		s.store = storeHandle{kind: storeKind, p: lsp, close: func() {}}
+	} else {
+		s.store = newStore(storeKind)
+	}
 	t.line("CFG %s %s", s.id, storeKind)
 	known := map[string]witness.LogInfo{}
 	for _, l := range logs {
@@ -495,7 +514,11 @@ func newSession(t *traceWriter, storeKind string, logs []*logDef, wkeys []witKey
 	}
 	var signers []note.Signer
 	for i, k := range wkeys {
-		signers = append(signers, &recSigner{inner: k.signer, sid: s.id, idx: i, t: t})
+		var in note.Signer = k.signer
+		if signFail != nil {
+			in = &failingSigner{inner: k.signer, fail: signFail}
+		}
+		signers = append(signers, &recSigner{inner: in, sid: s.id, idx: i, t: t})
 		rv := &recVerifier{inner: k.ind, vid: newVid("W"), t: t}
 		s.wrv = append(s.wrv, rv)
 		t.line("SGN %s %s %d %s %s", s.id, hx([]byte(k.signer.Name())), k.signer.KeyHash(), rv.vid, k.kind)
@@ -514,6 +537,21 @@ func (s *session) end() {
 }
 
 func (s *session) readState(logID string) string {
+	if s.dead {
+		return "!"
+	}
+	if s.ctl != nil {
+		var r string
+		if !withDeadline(3*time.Second, func() { r = s.readStateRaw(logID) }) {
+			s.dead = true
+			return "!"
+		}
+		return r
+	}
+	return s.readStateRaw(logID)
+}
+
+func (s *session) readStateRaw(logID string) string {
 	b, err := s.w.GetCheckpoint(logID)
 	if err != nil {
 		if status.Code(err) == codes.NotFound {
@@ -533,7 +571,19 @@ func (s *session) allState() string {
 	for _, id := range s.unknownIDs {
 		fmt.Fprintf(h, "%s=%s;", id, s.readState(id))
 	}
-	ls, err := s.w.GetLogs()
+	if s.dead {
+		return "!"
+	}
+	var ls []string
+	var err error
+	if s.ctl != nil {
+		if !withDeadline(3*time.Second, func() { ls, err = s.w.GetLogs() }) {
+			s.dead = true
+			return "!"
+		}
+	} else {
+		ls, err = s.w.GetLogs()
+	}
 	sort.Strings(ls)
 	fmt.Fprintf(h, "logs=%v err=%v", ls, err != nil)
 	return hex.EncodeToString(h.Sum(nil)[:8])
@@ -567,15 +617,68 @@ type updResult struct {
 
 // update performs one Update on the real witness and writes the U record.
 func (s *session) update(logID string, old uint64, cp []byte, proof [][]byte, extra string) updResult {
+	if s.dead {
+		return updResult{cls: "other", err: errors.New("witness wedged")}
+	}
 	pre := s.readState(logID)
 	allpre := s.allState()
 	c0 := readCounters(logID)
+	faultLetters := s.faults
+	if s.ctl != nil {
+		s.ctl.take()
+		s.ctl.setFaults(strings.ReplaceAll(s.faults, "N", ""))
+	}
+	if s.signFail != nil {
+		*s.signFail = strings.Contains(s.faults, "N")
+	}
+	if s.useDrv {
+		drvCtl.take()
+		drvCtl.setFaults(s.drvFaults)
+		for _, d := range s.drvFaults {
+			faultLetters += map[string]string{"begin": "W", "query": "R", "next": "R", "exec": "S", "commit": "S", "rollback": "C"}[d]
+		}
+	}
 	t0 := time.Now().Unix()
-	ret, err := s.w.Update(bgctx, logID, old, cp, proof)
+	var ret []byte
+	var err error
+	hang := 0
+	if s.ctl != nil {
+		if !withDeadline(5*time.Second, func() { ret, err = s.w.Update(bgctx, logID, old, cp, proof) }) {
+			hang = 1
+			s.dead = true
+			hangCount++
+			err = errors.New("update did not return")
+		}
+	} else {
+		ret, err = s.w.Update(bgctx, logID, old, cp, proof)
+	}
 	t1 := time.Now().Unix()
+	calls, dops := "", ""
+	if s.ctl != nil {
+		calls = " calls=" + s.ctl.take()
+		s.ctl.setFaults("")
+	}
+	if s.signFail != nil {
+		*s.signFail = false
+	}
+	if s.useDrv {
+		dops = " dops=" + drvCtl.take()
+		drvCtl.setFaults(nil)
+	}
 	c1 := readCounters(logID)
-	post := s.readState(logID)
-	allpost := s.allState()
+	post, allpost := "!", "!"
+	if s.ctl != nil {
+		// the next operation on the store must complete: no transaction left open on the single connection
+		post = s.readState(logID)
+		allpost = s.allState()
+		if s.dead && hang == 0 {
+			hang = 2
+			hangCount++
+		}
+	} else {
+		post = s.readState(logID)
+		allpost = s.allState()
+	}
 	cls := errClass(err)
 	if err == nil && ret != nil {
 		// record what an independent verification of the returned note says
@@ -594,8 +697,12 @@ func (s *session) update(logID string, old uint64, cp []byte, proof [][]byte, ex
 	if ret != nil {
 		r = hx(ret)
 	}
-	s.t.line("U %s log=%s old=%d cp=%s proof=%s pre=%s tw=%d,%d allpre=%s allpost=%s %s err=%s ret=%s post=%s ctr=%d,%d,%d,%d",
-		s.id, hx([]byte(logID)), old, hx(cp), hxList(proof), pre, t0, t1, allpre, allpost, extra, cls, r, post,
+	fl := ""
+	if s.ctl != nil {
+		fl = fmt.Sprintf(" faults=%s hang=%d", faultLetters, hang)
+	}
+	s.t.line("U %s log=%s old=%d cp=%s proof=%s pre=%s tw=%d,%d allpre=%s allpost=%s %s%s%s%s err=%s ret=%s post=%s ctr=%d,%d,%d,%d",
+		s.id, hx([]byte(logID)), old, hx(cp), hxList(proof), pre, t0, t1, allpre, allpost, extra, fl, calls, dops, cls, r, post,
 		c1[0]-c0[0], c1[1]-c0[1], c1[2]-c0[2], c1[3]-c0[3])
 	return updResult{ret: ret, err: err, cls: cls}
 }
@@ -607,3 +714,8 @@ func (s *session) truth(l *logDef, b *branch, sizes []uint64) {
 }
 
 var _ = bytes.Equal
+
+func killSelf() {
+	syscall.Kill(os.Getpid(), syscall.SIGKILL)
+	select {}
+}
